@@ -30,6 +30,8 @@ pub fn panic_msg(p: &Box<dyn Any + Send>) -> String {
 /// knobs of the swarm: which strategies and fault kinds a scenario family wants
 #[derive(Clone, Debug)]
 pub struct Swarm {
+    /// the scenario uses real sockets: poll the epoll fds at every scheduling decision
+    pub io: bool,
     /// draw an allocator fault mode (LIFO reuse / poison) for some runs
     pub alloc_modes: bool,
     pub stalls: bool,
@@ -43,6 +45,7 @@ pub struct Swarm {
 impl Default for Swarm {
     fn default() -> Self {
         Swarm {
+            io: false,
             alloc_modes: false,
             stalls: false,
             stall_max_ns: 2_000_000,
@@ -60,6 +63,7 @@ pub fn swarm_cfg(seed: u64, sw: &Swarm) -> Cfg {
     let mut r = Rng::new(seed ^ 0xC0F1_6000_0000_0001);
     let mut c = Cfg::new(seed);
     c.max_steps = sw.max_steps;
+    c.io_always = sw.io;
     c.strategy = match r.below(100) {
         0..=34 => Strategy::Rw,
         35..=49 => Strategy::Sticky(20),
